@@ -54,6 +54,7 @@ var wants = []want{
 	{"leveldb", "ldb", []string{"maxCachedNumber"}}, // C07: queue bound of session.refLoop
 	{"leveldb/cache", "cch", []string{"mInitialSize", "mOverflowThreshold", "mOverflowGrowThreshold",
 		"bucketUninitialized", "bucketInitialized", "bucketFrozen"}}, // C17: the node table of cache.go
+	{"leveldb/filter", "flt", []string{"maxBloomBits", "bloomProbeBits"}}, // C16: ceilings of the repaired bloom.go
 }
 
 // package-level VARIABLES whose initialiser is a constant expression (the Default* values of leveldb/opt are
